@@ -82,6 +82,7 @@ int obs_eq(const obs *a, const obs *b);
 /* make a library seed holding exactly r (via polyseed_load of the reference serialisation);
  * enabled mask is left as found.  NULL if the library refuses. */
 polyseed_data *seed_from_ref(const rseed *r);
+polyseed_data *seed_via_create(const rseed *r);
 int lang_index(const polyseed_lang *l);          /* registry index or -1 */
 void hex(const void *p, size_t n, char *out);
 int unhexn(const char *h, uint8_t *out, size_t max);
@@ -91,7 +92,7 @@ int parse_rseed(const char *hex19, unsigned birthday, unsigned features, rseed *
 
 /* ------------------------------------------------------------------ results */
 #define NCLS 40
-#define MAXV 100
+#define MAXV 400
 struct viol { char key[160]; char replay[1500]; char msg[600]; };
 struct res {
     uint64_t cases, calls, validated, digest;
